@@ -99,6 +99,19 @@ class Subject(object):
                 except OSError:
                     pass
 
+    def reopen(self):
+        """a new Cache object over the same file (process restart); nothing to do for the in-memory cache"""
+        if self.path is None:
+            return
+        from saml2_tophat.cache import Cache
+        from saml2_tophat.population import Population
+        try:
+            self.cache._db.close()
+        except Exception:
+            pass
+        self.cache = Cache(self.path)
+        self.pop = Population(self.cache) if self.backend != 'file-direct' else None
+
     def close(self):
         try:
             self.cache._db.close()
@@ -173,6 +186,9 @@ class Subject(object):
                 return {'r': 'set', 'v': sorted(nid_name(x, self.variant) for x in subs)}
             if name == 'Tick':
                 self.clock.now += UNIT
+                return {'r': 'ok'}
+            if name == 'Reopen':
+                self.reopen()
                 return {'r': 'ok'}
         except KeyError:
             return {'r': 'KeyError'}
@@ -264,6 +280,8 @@ def replay_edge(case):
                         sub.do({'op': 'Reset', 's': s, 'i': i})
             sub.set_now(case['now'])
             op = case['op']
+            if case.get('restart'):
+                sub.reopen()            # the pre-state was written by an earlier process
             got = sub.do(op)
             if norm_ret(got) != norm_ret(op['ret']):
                 problems.append({'backend': backend, 'where': 'result', 'expected': op['ret'], 'observed': got})
@@ -325,6 +343,10 @@ def record_trace(args):
                 sub.set_now(now)
                 events.append({'op': 'Tick', 'to': now, 'ret': {'r': 'ok'}})
                 continue
+            elif x < 0.53:
+                sub.reopen()
+                events.append({'op': 'Reopen', 'ret': {'r': 'ok'}})
+                continue
             elif x < 0.62:
                 op = {'op': 'Get', 's': s, 'i': i, 'check': rng.random() < 0.7}
             elif x < 0.80:
@@ -369,6 +391,7 @@ def main():
     for k, e in enumerate(edges):
         e['maxt'] = maxt
         e['variant'] = variants[k % len(variants)]
+        e['restart'] = (k // len(variants)) % 2 == 1          # every other transition: the pre-state was written by an earlier process
         if not thorough and k % 3:
             e['backends'] = ('memory',)
         jobs.append(e)
